@@ -69,7 +69,7 @@ func TestVerif_C14_select(t *testing.T) {
 	rec.Require("result:address", "result:error", "legacy-libver", "libver:0", "libver:1", "libver:2", "libver:3", "libver:4",
 		"leading-zero-net", "one-address-net", "zero-weight-present", "zero-total-weight", "ref-equal", "ref-weight-tie",
 		"entry:select", "entry:client-w", "entry:client-u", "fam:v4", "fam:v6", "fam:any", "via-toml",
-		"offset:top", "offset:bottom", "randport-granted", "unknown-or-removed-generation", "unparsable-cidr-present", "mapped-cidr-present")
+		"offset:top", "offset:bottom", "randport-granted", "unknown-or-removed-generation", "unparsable-cidr-present", "mapped-cidr-present", "group-without-subnets-beside-others")
 	env := &c14Env{dir: t.TempDir()}
 	if c14Replay(t, rec, env) {
 		return
@@ -103,6 +103,8 @@ func c14Shapes() []c14Shape {
 		{"positive weight, empty subnet list", g(c14Group{Weight: 5, Rand: -1, Subnets: []string{}}), true},
 		{"weight 0 without subnets + weight 0 with subnets", g(c14Group{Weight: 0, Rand: -1}, c14Group{Weight: 0, Rand: -1, Subnets: both}), true},
 		{"weight 0 with subnets + positive weight without subnets", g(c14Group{Weight: 0, Rand: -1, Subnets: both}, c14Group{Weight: 3, Rand: -1}), true},
+		{"heavy group with an empty subnet list between two groups", g(c14Group{Weight: 1, Rand: 1, Subnets: both}, c14Group{Weight: 9, Rand: 0, Subnets: []string{}}, c14Group{Weight: 2, Rand: 0, Subnets: []string{"198.51.100.0/24", "2001:db8:1::/64"}}), true},
+		{"heavy group without a subnet list before two groups", g(c14Group{Weight: 100, Rand: 0}, c14Group{Weight: 1, Rand: 1, Subnets: both}, c14Group{Weight: 1, Rand: 0, Subnets: []string{"198.51.100.0/24", "2001:db8:1::/64"}}), true},
 		{"weight 0 + positive weight", g(c14Group{Weight: 0, Rand: 1, Subnets: both}, c14Group{Weight: 3, Rand: 0, Subnets: []string{"198.51.100.0/24", "2001:db8:1::/64"}}), true},
 		{"IPv4 only", g(c14Group{Weight: 1, Rand: -1, Subnets: []string{"192.0.2.0/24"}}), true},
 		{"IPv6 only", g(c14Group{Weight: 1, Rand: -1, Subnets: []string{"2001:db8::/64"}}), true},
@@ -142,9 +144,9 @@ func c14FixedSeeds() [][]byte {
 }
 
 func TestVerif_C14_degenerate(t *testing.T) {
-	rec := vh.NewRec("C14", "degenerate", "exhaustive product of 32 degenerate configuration shapes (generation 0 declared beside others, IPv4-mapped IPv6 networks alone / beside IPv4 / beside tiny or ordinary IPv6, no/removed generation, absent/empty group list, zero/absent weights, absent/empty subnet lists, single-family, one-address, all-zero, /0, leading-zero, top-of-space, unparsable, 2^32-1 weights) x {object built directly, loaded from TOML} x 7 seed shapes x library versions 0-4 x {v4,v6} for Select and x {v4,v6,any} for SelectPhantom weighted/unweighted; "+c14Rule)
+	rec := vh.NewRec("C14", "degenerate", "exhaustive product of 34 degenerate configuration shapes (weighted groups without subnets beside others, generation 0 declared beside others, IPv4-mapped IPv6 networks alone / beside IPv4 / beside tiny or ordinary IPv6, no/removed generation, absent/empty group list, zero/absent weights, absent/empty subnet lists, single-family, one-address, all-zero, /0, leading-zero, top-of-space, unparsable, 2^32-1 weights) x {object built directly, loaded from TOML} x 7 seed shapes x library versions 0-4 x {v4,v6} for Select and x {v4,v6,any} for SelectPhantom weighted/unweighted; "+c14Rule)
 	defer rec.Flush()
-	rec.Require("zero-total-weight", "result:error", "result:address", "via-toml", "legacy-libver", "leading-zero-net", "one-address-net", "mapped-cidr-present")
+	rec.Require("zero-total-weight", "result:error", "result:address", "via-toml", "legacy-libver", "leading-zero-net", "one-address-net", "mapped-cidr-present", "group-without-subnets-beside-others")
 	env := &c14Env{dir: t.TempDir()}
 	if c14Replay(t, rec, env) {
 		return
@@ -273,7 +275,7 @@ func c14OffSpace(groups []c14RefGroup, weighted bool, fam string) map[string]boo
 		return space
 	}
 	for gi, g := range groups {
-		if g.Weight == 0 || g.SubnetsNil {
+		if g.Weight == 0 || len(g.Subnets) == 0 {
 			continue
 		}
 		n, _, _ := c14RefNets(g, fam)
